@@ -672,6 +672,12 @@ class Evaluator(object):
             return ArrV(n, ew, None, None, elems), off
         if k == "adt" and t["adt_kind"] == "struct" and len(t["variants"][0]["fields"]) == 1:
             return self._decode(b, t["variants"][0]["fields"][0]["ty"], off)
+        # tuples and structs: field offsets and size come from the compiler's layout (the fact extractor records them)
+        if t.get("offsets") is not None and t.get("size") is not None:
+            ftys = t["elems"] if k == "tuple" else ([f["ty"] for f in t["variants"][0]["fields"]] if k == "adt" and t["adt_kind"] == "struct" else None)
+            if ftys is not None and len(ftys) == len(t["offsets"]):
+                vals = [self._decode(b, fty, off + o)[0] for fty, o in zip(ftys, t["offsets"])]
+                return Struct(vals), off + t["size"]
         raise Unsupported("decode constant of type %s" % t["s"])
 
     # ----------------------------------------------------------- operands
